@@ -145,4 +145,30 @@ def geffToDataframes {α : Type} (g : InMemGeff α) : Outcome (Tables α) :=
   | .valueError => .valueError
   | .indexError => .indexError
 
+/-! ### `geff_to_csv`: which files are written (file system = path ↦ content) -/
+
+abbrev FS := List (String × String)
+
+def fsGet (fs : FS) (path : String) : Option String :=
+  match fs with
+  | [] => none
+  | e :: rest => if e.1 = path then some e.2 else fsGet rest path
+
+def fsSet (fs : FS) (path content : String) : FS :=
+  match fs with
+  | [] => [(path, content)]
+  | e :: rest => if e.1 = path then (path, content) :: rest else e :: fsSet rest path content
+
+/-- `df.to_csv(path, mode=mode)`: mode `"x"` raises `FileExistsError` when the file exists, mode
+`"w"` truncates.  Returns (raised, file system afterwards). -/
+def toCsv (fs : FS) (path content : String) (overwrite : Bool) : Bool × FS :=
+  if !overwrite && (fsGet fs path).isSome then (true, fs) else (false, fsSet fs path content)
+
+/-- `geff_to_csv` after the tables have been computed: the node table first, then the edge table,
+both with `mode = "w" if overwrite else "x"`; an exception ends the call. -/
+def geffToCsv (fs : FS) (base nodeCsv edgeCsv : String) (overwrite : Bool) : Bool × FS :=
+  match toCsv fs (base ++ "-nodes.csv") nodeCsv overwrite with
+  | (true, fs') => (true, fs')
+  | (false, fs') => toCsv fs' (base ++ "-edges.csv") edgeCsv overwrite
+
 end Geff.Dataframe
